@@ -202,7 +202,8 @@ def run_case(case: Any) -> dict[str, Any]:
         cnt["pairs"] += 1
         violations.extend(check_pair(merge, a, a, cnt))
         sig = ("enum", case["orig_index"])
-        sample = {"original": repr(a0), "overrides": "every element of U (843)", "example_result": repr(merge(copy.deepcopy(a0), copy.deepcopy(U[-1])))}
+        sample = {"original": repr(a0), "overrides": "every element of U (843)", "last_overrides": repr(U[-1]),
+                  "expected_for_last": repr(model_merge(a0, U[-1]))}
     else:
         rng = case_rng(PROPERTY, 0, 0, case["seed"])
         sigs = []
